@@ -39,7 +39,7 @@ def model_checks(tier):
 def cases(tier, seed, info):
     routes, _ = tlc.generate('gen/Gen_UDRoute')
     info['routes_from_tlc'] = len(routes)
-    per = 8 if tier == 'quick' else 150
+    per = 8 if tier == 'quick' else 400
     items = []
     for r in routes:
         for k in range(per):
